@@ -38,18 +38,47 @@ def chain(model):
     if not (isinstance(lp.target, ast.Tuple) and len(lp.target.elts) == 2 and all(isinstance(x, ast.Name) for x in lp.target.elts)):
         raise AnalysisError("%s: loop target is not a pair" % FIXER)
     a, b = lp.target.elts[0].id, lp.target.elts[1].id
-    # body: V = V.replace(a, b)
+    # body, one of the recognised "replace a by b in V" idioms:
+    #   V = V.replace(a, b)              every occurrence
+    #   V = V.replace(a, b, K)           the first K occurrences (K a literal)
+    #   h, f, t = V.partition(a) ; if f: V = h + b + t      the first occurrence
     body = [s for s in lp.body if not isinstance(s, ast.Pass)]
-    if len(body) != 1 or not isinstance(body[0], ast.Assign) or len(body[0].targets) != 1 or not isinstance(body[0].targets[0], ast.Name):
-        raise AnalysisError("%s: loop body is not a single assignment" % FIXER)
-    v = body[0].targets[0].id
-    call = body[0].value
-    ok = (isinstance(call, ast.Call) and isinstance(call.func, ast.Attribute) and call.func.attr == "replace"
-          and isinstance(call.func.value, ast.Name) and call.func.value.id == v and len(call.args) == 2 and not call.keywords
-          and all(isinstance(x, ast.Name) for x in call.args))
-    if not ok:
-        raise AnalysisError("%s: loop body is not `s = s.replace(x, y)`" % FIXER)
-    order = (call.args[0].id, call.args[1].id)
+    count = None
+    if len(body) == 1 and isinstance(body[0], ast.Assign) and len(body[0].targets) == 1 and isinstance(body[0].targets[0], ast.Name):
+        v = body[0].targets[0].id
+        call = body[0].value
+        ok = (isinstance(call, ast.Call) and isinstance(call.func, ast.Attribute) and call.func.attr == "replace"
+              and isinstance(call.func.value, ast.Name) and call.func.value.id == v and len(call.args) in (2, 3) and not call.keywords
+              and all(isinstance(x, ast.Name) for x in call.args[:2]))
+        if not ok:
+            raise AnalysisError("%s: loop body is not `s = s.replace(x, y)`" % FIXER)
+        if len(call.args) == 3:
+            if not (isinstance(call.args[2], ast.Constant) and isinstance(call.args[2].value, int)):
+                raise AnalysisError("%s: replace count is not a literal" % FIXER)
+            count = call.args[2].value
+        order = (call.args[0].id, call.args[1].id)
+    elif (len(body) == 2 and isinstance(body[0], ast.Assign) and isinstance(body[0].targets[0], ast.Tuple) and len(body[0].targets[0].elts) == 3
+          and isinstance(body[0].value, ast.Call) and isinstance(body[0].value.func, ast.Attribute) and body[0].value.func.attr == "partition"
+          and isinstance(body[0].value.func.value, ast.Name) and len(body[0].value.args) == 1 and isinstance(body[0].value.args[0], ast.Name)
+          and isinstance(body[1], ast.If) and not body[1].orelse and len(body[1].body) == 1 and isinstance(body[1].body[0], ast.Assign)):
+        h, f, t = (x.id if isinstance(x, ast.Name) else None for x in body[0].targets[0].elts)
+        v = body[0].value.func.value.id
+        asg = body[1].body[0]
+        cat = asg.value
+        parts = []
+        while isinstance(cat, ast.BinOp) and isinstance(cat.op, ast.Add):
+            parts.insert(0, cat.right)
+            cat = cat.left
+        parts.insert(0, cat)
+        names = [x.id if isinstance(x, ast.Name) else None for x in parts]
+        if not (isinstance(body[1].test, ast.Name) and body[1].test.id == f and isinstance(asg.targets[0], ast.Name) and asg.targets[0].id == v
+                and len(names) == 3 and names[0] == h and names[2] == t and names[1] is not None):
+            raise AnalysisError("%s: partition idiom not recognised" % FIXER)
+        count = 1
+        order = (body[0].value.args[0].id, names[1])
+        body = [asg]
+    else:
+        raise AnalysisError("%s: loop body is not a recognised replace idiom" % FIXER)
     if set(order) != {a, b}:
         raise AnalysisError("%s: replace operands are not the loop variables" % FIXER)
     swapped = order != (a, b)
@@ -85,6 +114,8 @@ def chain(model):
         raise AnalysisError("%s: substitution list is not a literal list of string pairs" % FIXER)
     if swapped:
         pairs = [(y, x, l) for x, y, l in pairs]
+    pairs = PairList(pairs)
+    pairs.count = count
     # returns: (param != V, V) on the normal path
     rets = [n for n in ast.walk(fn.node) if isinstance(n, ast.Return)]
     main = [r for r in rets if isinstance(r.value, ast.Tuple) and len(r.value.elts) == 2 and isinstance(r.value.elts[1], ast.Name) and r.value.elts[1].id == v]
@@ -96,9 +127,16 @@ def chain(model):
     return pairs, fn, {"flag_is_changed_test": flag_ok, "flag_expr": ast.unparse(flag), "return": main[0]}
 
 
+class PairList(list):
+    """Substitution pairs plus how many occurrences each step replaces (None = all)."""
+
+    count = None
+
+
 def apply(pairs, s):
+    count = getattr(pairs, "count", None)
     for a, b, _ in pairs:
-        s = s.replace(a, b)
+        s = s.replace(a, b) if count is None else s.replace(a, b, count)
     return s
 
 
